@@ -707,7 +707,7 @@ def rule_grade(prop):
             for k, why in UNANALYSED.items():
                 r.note('unanalysed: %s - %s' % (k, why))
         r.stats = {'kernels': n_k}
-        r.floor = {'C01': 500, 'C02': 60, 'C07': 120, 'C08': 200, 'C12': 1000, 'C13': 30}[prop]
+        r.floor = {'C01': 500, 'C02': 60, 'C07': 120, 'C08': 200, 'C12': 1000, 'C13': 20}[prop]
         return r
     rule.__name__ = 'rule_grade_' + prop
     return rule
